@@ -9,7 +9,7 @@
    explained s  : V died inside one of the listed windows, or a poll consumed the message and raised. *)
 From Coq Require Import List Bool Arith.
 Import ListNotations.
-From PV Require Import Model.Status Model.Crash gen.CrashProgs_gen Proofs.CrashProofs.
+From PV Require Import Model.Status Model.Crash Model.CrashSpec gen.CrashProgs_gen Proofs.CrashProofs.
 
 (* The full statement — FALSE for this tree, see crash_windows_refuted. *)
 Definition never_stranded : Prop := forall s, reach gstep s -> can_finish gstep s.
